@@ -830,6 +830,10 @@ impl Model {
             se.cur = P15 | P02;
             self.push(se, c, format!("433 {}", new));
             se.labels.push("NICK/433".into());
+            // a refused change must leave both users exactly as they were: what later probes show about either
+            // of them is this refusal's business too
+            self.touched.push((new.clone(), P15 | P02));
+            self.touched.push((old.clone(), P15 | P02));
             return;
         }
         let mut u = self.users.remove(&old).unwrap();
